@@ -16,7 +16,7 @@ coap_log_t coap_get_log_level(void) { return (coap_log_t)vin_scalar("log_level")
 void coap_log_impl(coap_log_t level, const char *format, ...) { (void)level; (void)format; }
 #else
 _Bool nondet_alloc_fail(void);
-int G_allocs;     /* ghost: blocks currently owned through the library allocator (leak accounting of the C18 units) */
+unsigned long G_allocs;     /* ghost: blocks currently owned through the library allocator (leak accounting of the C18 units) */
 void *coap_malloc_type(coap_memory_tag_t type, size_t size) {
   (void)type;
   _Bool alloc_fail = nondet_alloc_fail();
